@@ -8,6 +8,7 @@ from typing import TYPE_CHECKING, Any, Awaitable, Callable, NoReturn
 from repid._asyncify import asyncify
 from repid._utils import _NoAction
 from repid.dependencies.protocols import DependencyKind
+from repid.logger import logger
 from repid.message import Message
 
 if TYPE_CHECKING:
@@ -129,7 +130,16 @@ class MessageDependency(Message):
 
     async def __execute_callbacks(self) -> None:
         self.__lazy_result_callback()
-        [await c() for c in self._callbacks]  # execute in order
+        for c in self._callbacks:  # execute in order
+            try:
+                await c()
+            except Exception:  # noqa: BLE001
+                # the message has been already reported to the broker, so a failing callback
+                # (e.g. result storing) must not make the worker report it one more time
+                logger.exception(
+                    "Callback of message {message_id} raised an exception.",
+                    extra={"message_id": self._key.id_},
+                )
 
     async def ack(self) -> NoReturn:
         await super().ack()
